@@ -1,5 +1,5 @@
 (* Proofs about Model/GatedSection.v: the gate composed with the section model.
-   1  a refused call: the settings stay, the step is the identity (unless it is a decorated clear / overwrite)
+   1  a refused call: the settings stay, the step is the identity
    2  a gated run is the Section.v run of the operations of the ALLOWED calls (erase); the settings go their own way
    3  ... hence equals the run of the sequence with the refused calls removed (kept)
    4  the C15 screen theorem lifted
@@ -15,48 +15,22 @@ Proof. destruct o; cbn; intros H; try reflexivity; discriminate. Qed.
 Lemma refused_has_sop gs o : allowed gs o = false -> exists so, sop_of o = Some so.
 Proof. destruct o; cbn; intros H; try discriminate; eexists; reflexivity. Qed.
 
-Lemma ideal_refused ansi w st gs f o : allowed gs o = false -> gstep_ideal ansi w st gs f o = Ok (st, gs, f, []).
-Proof. intros H. unfold gstep_ideal. destruct (refused_has_sop gs o H) as [so ->]. now rewrite H. Qed.
-
-(* the section a clear / overwrite works on has nothing recorded *)
-Definition nothing_recorded (st : secs) (o : gop) : Prop :=
-  match o with
-  | GClear i _ | GOverwrite i _ => match nth_error st i with Some s => sc_content s = [] | None => True end
-  | _ => True
-  end.
-
-Lemma clear_refused_empty w st f i n :
-  match nth_error st i with Some s => sc_content s = [] | None => True end -> clear_refused w st f i n = Ok (st, f).
-Proof. unfold clear_refused. destruct (nth_error st i) as [s|]; [intros ->|]; reflexivity. Qed.
-
-(* (a) a refused call changes neither the stream nor any section's state (content, row count, indentation), nor the
-   settings, nor the formatter: for EVERY refused write / write_line, for every refused call on an undecorated output,
-   and for a refused clear / overwrite of a decorated section that has nothing recorded *)
-Lemma refused_invisible ansi w st gs f o : allowed gs o = false ->
-  is_clear o = false \/ ansi = false \/ nothing_recorded st o ->
-  gstep ansi w st gs f o = Ok (st, gs, f, []).
-Proof.
-  intros H Hc. unfold gstep. destruct (leaks ansi gs o) eqn:El; [|apply ideal_refused, H].
-  unfold leaks in El. apply andb_true_iff in El. destruct El as [El _]. apply andb_true_iff in El. destruct El as [-> Ec].
-  destruct Hc as [Hc|[Hc|Hc]]; [congruence|discriminate|].
-  destruct o; try discriminate; cbn [nothing_recorded] in Hc; now rewrite (clear_refused_empty _ _ _ _ _ Hc).
-Qed.
-
-(* the code is the ideal, except for the refused decorated clear / overwrite *)
-Lemma gstep_is_ideal ansi w st gs f o : leaks ansi gs o = false -> gstep ansi w st gs f o = gstep_ideal ansi w st gs f o.
-Proof. unfold gstep. now intros ->. Qed.
+(* (a) a refused call - write, write_line, overwrite, clear, full or partial, decorated or not, whatever the section has
+   on record - changes neither the stream nor any section's state (content, row count, indentation), nor the settings,
+   nor the formatter *)
+Lemma refused_invisible ansi w st gs f o : allowed gs o = false -> gstep ansi w st gs f o = Ok (st, gs, f, []).
+Proof. intros H. unfold gstep. destruct (refused_has_sop gs o H) as [so ->]. now rewrite H. Qed.
 
 (* ---------- 2. a gated run is the flag-less run of the allowed calls ---------- *)
 Definition lift (gs' : gates) (r : res (secs * formatter * list emit)) : res gres :=
   do x <- r; Ok (fst (fst x), gs', snd (fst x), snd x).
 
-(* the ideal run, whatever is refused *)
-Lemma grun_ideal_erase ansi w : forall ops st gs f,
-  grun_ideal ansi w st gs f ops = lift (gates_after gs ops) (srun ansi w st f (erase gs ops)).
+Lemma grun_erase ansi w : forall ops st gs f,
+  grun ansi w st gs f ops = lift (gates_after gs ops) (srun ansi w st f (erase gs ops)).
 Proof.
   induction ops as [|o r IH]; intros st gs f; [reflexivity|].
-  cbn [grun_ideal erase gates_after fold_left]. fold (gates_after (gates_step gs o) r).
-  unfold gstep_ideal.
+  cbn [grun erase gates_after fold_left]. fold (gates_after (gates_step gs o) r).
+  unfold gstep.
   destruct (sop_of o) as [so|] eqn:Es.
   - destruct (allowed gs o) eqn:Ea.
     + cbn [app srun]. unfold sec_step.
@@ -68,25 +42,6 @@ Proof.
   - cbn [bind fst snd app]. rewrite IH. unfold lift.
     destruct (srun ansi w st f (erase (gates_step gs o) r)) as [[[st2 f2] e2]|k]; reflexivity.
 Qed.
-(* the run of the code is the ideal run when no decorated clear / overwrite is refused *)
-Lemma grun_is_ideal ansi w : forall ops st gs f, leakfree ansi gs ops = true ->
-  grun ansi w st gs f ops = grun_ideal ansi w st gs f ops.
-Proof.
-  induction ops as [|o r IH]; intros st gs f Hl; [reflexivity|].
-  cbn [leakfree] in Hl. apply andb_true_iff in Hl. destruct Hl as [Hk Hl]. apply negb_true_iff in Hk.
-  cbn [grun grun_ideal]. rewrite (gstep_is_ideal _ _ _ _ _ _ Hk).
-  destruct (gstep_ideal ansi w st gs f o) as [[[[st1 gs1] f1] e1]|k] eqn:E; [|reflexivity]. cbn [bind fst snd].
-  assert (gs1 = gates_step gs o) as ->.
-  { unfold gstep_ideal in E. destruct (sop_of o).
-    - destruct (allowed gs o) eqn:Ea.
-      + destruct (sec_step ansi w st f s) as [[[? ?] ?]|]; cbn in E; [|discriminate]. now inversion E.
-      + inversion E; subst. now rewrite (gates_step_refused _ _ Ea).
-    - now inversion E. }
-  now rewrite (IH _ _ _ Hl).
-Qed.
-Lemma grun_erase ansi w ops st gs f : leakfree ansi gs ops = true ->
-  grun ansi w st gs f ops = lift (gates_after gs ops) (srun ansi w st f (erase gs ops)).
-Proof. intros Hl. rewrite (grun_is_ideal _ _ _ _ _ _ Hl). apply grun_ideal_erase. Qed.
 
 (* ---------- 3. the sequence without its refused calls ---------- *)
 Lemma erase_kept : forall ops gs, erase gs (kept gs ops) = erase gs ops.
@@ -102,14 +57,6 @@ Proof.
   destruct (allowed gs o) eqn:Ea; cbn [app fold_left]; [apply IH|].
   rewrite (gates_step_refused _ _ Ea). apply IH.
 Qed.
-Lemma leaks_allowed ansi gs o : allowed gs o = true -> leaks ansi gs o = false.
-Proof. unfold leaks. intros ->. now rewrite andb_false_r. Qed.
-Lemma leakfree_kept ansi : forall ops gs, leakfree ansi gs (kept gs ops) = true.
-Proof.
-  induction ops as [|o r IH]; intros gs; [reflexivity|]. cbn [kept].
-  destruct (allowed gs o) eqn:Ea; cbn [app leakfree]; [|rewrite (gates_step_refused _ _ Ea); apply IH].
-  rewrite (leaks_allowed _ _ _ Ea). cbn. apply IH.
-Qed.
 Lemma kept_all_allowed : forall ops gs, kept gs (kept gs ops) = kept gs ops.
 Proof.
   induction ops as [|o r IH]; intros gs; [reflexivity|]. cbn [kept].
@@ -119,29 +66,24 @@ Qed.
 
 (* (b) the whole result of a run - stream, every section's state, settings, formatter - is that of the sequence with
    all refused calls removed: what a refused call was given can never show up, neither at once nor later *)
-Lemma refused_never_appears ansi w st gs f ops : leakfree ansi gs ops = true ->
-  grun ansi w st gs f ops = grun ansi w st gs f (kept gs ops).
-Proof.
-  intros Hl. rewrite (grun_erase _ _ _ _ _ _ Hl), (grun_erase _ _ _ _ _ _ (leakfree_kept ansi ops gs)).
-  now rewrite erase_kept, gates_after_kept.
-Qed.
+Lemma refused_never_appears ansi w st gs f ops : grun ansi w st gs f ops = grun ansi w st gs f (kept gs ops).
+Proof. rewrite !grun_erase. now rewrite erase_kept, gates_after_kept. Qed.
 
 (* two sequences that differ only in what their refused calls were given have the same result *)
-Lemma refused_arguments_irrelevant ansi w st gs f ops ops' :
-  leakfree ansi gs ops = true -> leakfree ansi gs ops' = true -> kept gs ops = kept gs ops' ->
+Lemma refused_arguments_irrelevant ansi w st gs f ops ops' : kept gs ops = kept gs ops' ->
   grun ansi w st gs f ops = grun ansi w st gs f ops'.
-Proof. intros H1 H2 E. rewrite (refused_never_appears _ _ _ _ _ _ H1), (refused_never_appears _ _ _ _ _ _ H2). now rewrite E. Qed.
+Proof. intros E. rewrite (refused_never_appears _ _ _ _ _ ops), (refused_never_appears _ _ _ _ _ ops'). now rewrite E. Qed.
 
 (* ---------- 4. the screen is the stack of what the ALLOWED calls wrote ---------- *)
 Lemma gated_screen_lemma w : 1 <= w -> forall f0 ops, is_ansi f0 -> f_stack f0 = [] ->
-  leakfree true [] ops = true -> good_opsb (f_styles f0) (erase [] ops) = true ->
+  good_opsb (f_styles f0) (erase [] ops) = true ->
   exists st f es, grun true w [] [] f0 ops = Ok (st, gates_after [] ops, f, es) /\
     srun true w [] f0 (erase [] ops) = Ok (st, f, es) /\
     feed w term_init es = screen w (f_styles f0) st /\ Forall (sec_ok w (f_styles f0)) st /\ fmt_ok (f_styles f0) f.
 Proof.
-  intros Hw f0 ops Ha Hs Hl Hg.
+  intros Hw f0 ops Ha Hs Hg.
   destruct (screen_is_stack_lemma w Hw f0 (erase [] ops) Ha Hs Hg) as (st & f & es & Hr & Hscr & Hok & Hf).
-  exists st, f, es. rewrite (grun_erase _ _ _ _ _ _ Hl), Hr. cbn. auto.
+  exists st, f, es. rewrite grun_erase, Hr. cbn. auto.
 Qed.
 
 (* the settings list stays parallel to the sections *)
